@@ -144,6 +144,18 @@ class CloneModel:
                             for n in walk_local(g.node):
                                 if isinstance(n, ast.Assign) and isinstance(n.value, ast.Name) and n.value.id == lst and isinstance(n.targets[0], ast.Attribute):
                                     homes.append(("field", g.cls.name, n.targets[0].attr))
+                        elif isinstance(par, (ast.ListComp, ast.GeneratorExp, ast.SetComp)) and par.elt is call:
+                            # `c._f = [x._clone(memo) for x in self._f]` (possibly through list(...) or a local)
+                            up = getattr(par, "_parent", None)
+                            while isinstance(up, ast.Call) and norm(up.func) in ("list", "tuple", "set"):
+                                up = getattr(up, "_parent", None)
+                            if isinstance(up, ast.Assign) and isinstance(up.targets[0], ast.Attribute):
+                                homes.append(("field", g.cls.name, up.targets[0].attr))
+                            elif isinstance(up, ast.Assign) and isinstance(up.targets[0], ast.Name):
+                                lst = up.targets[0].id
+                                for n in walk_local(g.node):
+                                    if isinstance(n, ast.Assign) and isinstance(n.value, ast.Name) and n.value.id == lst and isinstance(n.targets[0], ast.Attribute):
+                                        homes.append(("field", g.cls.name, n.targets[0].attr))
                         elif isinstance(par, ast.Assign) and isinstance(par.targets[0], ast.Name):
                             local = par.targets[0].id
                             homes.append(("local", g.key, local))
